@@ -485,6 +485,7 @@ pub fn run(seed: u64, out: &str, args: &[String]) -> bool {
         let mut step = 0;
         let mut quiet_rounds = 0;
         let mut shutdown_done = false;
+        let mut stalled: Option<(String, u64)> = None;
         let shutdown_at: Option<u64> = if extended && rng.chance(35) { Some(length * (40 + rng.below(50)) / 100) } else { None };
         while hang.is_none() {
             sink.flush();
@@ -495,6 +496,14 @@ pub fn run(seed: u64, out: &str, args: &[String]) -> bool {
             for role in ["worker", "sweeper", "consumer"] { if world.enabled(role) { candidates.push(role.to_string()); } }
             for client in 0..cfg.clients { let role = format!("c{}", client); if world.enabled(&role) { candidates.push(role); } }
             let idle: Vec<usize> = (0..cfg.clients).filter(|c| !world.pending_job[*c] && World::at(&format!("c{}", c)) == "client.idle").collect();
+            // long races: now and then one thread is held back for many actions in a row, wherever it stands (e.g. the sweeper
+            // between two steps of an eviction while a whole delete and a whole put of the same key go by)
+            if let Some((role, until)) = stalled.clone() {
+                if step >= until || winding_down { stalled = None; }
+                else if candidates.len() > 1 || !idle.is_empty() { candidates.retain(|candidate| *candidate != role); }
+            } else if extended && !winding_down && !candidates.is_empty() && rng.chance(4) {
+                stalled = Some((rng.pick(&candidates), step + 8 + rng.below(40)));
+            }
             if winding_down {
                 // let everything that is in flight finish; the sweeper only if it is mid-sweep
                 candidates.retain(|role| role != "sweeper" || World::at("sweeper") != "sweep.begin");
